@@ -223,7 +223,11 @@ func (g *gen) panicPayload(depth int) []Val {
 	case 5:
 		return []Val{{K: "struct", I: 3, S: Str(g.payload())}}
 	case 6:
-		// a payload that is itself a (non-panicking) Stringer
+		// a payload that is itself a Stringer; now and then one whose own
+		// String panics (a nested panic: propagates)
+		if g.chance(0.25) {
+			return []Val{{K: "stringer", ID: g.id(), R: "never", P: []Step{{A: "pa", S: "inner"}}}}
+		}
 		return []Val{{K: "stringer", ID: g.id(), R: Str("P:" + g.payload())}}
 	default:
 		return []Val{{K: "str", S: Str(g.payload())}}
